@@ -13,4 +13,7 @@ def check(run):
                        "daacsv = the repository's daa.csv rows against SM83!Daa. distinct_nontrivial = distinct (opcode, A/F before, A/F after, cycles) tuples", "C01")
 
 
+    cpu_common.rom_traces(run, "C01")
+
+
 replay = cpu_common.replay
